@@ -10,6 +10,12 @@ REQUIRED = ["DaeVerif.C07.Props." + n for n in (
     "extra_sections_do_not_route",
     "reject_empties_answer_section_only",
     "reject_keeps_cache_of_names_with_bar",
+    "class_does_not_route",
+    "non_in_question_is_never_cached",
+    "class_is_part_of_the_cache_key",
+    "stale_hit_refreshes_from_routed_upstream",
+    "reject_beats_stale_cache",
+    "reask_bounded_optimistic",
     "request_match_is_first_match",
     "first_match_is_first",
     "name_case_and_trailing_dot",
@@ -120,7 +126,7 @@ def run(ctx):
         state["evaluations"] += len(ol)
         for op, im, mo in zip(ol, read_lines(impl), read_lines(model)):
             k = op.split(" ", 1)[0]
-            if k in ("rq", "rs", "ask", "dq"):
+            if k in ("rq", "rs", "ask", "dq", "pair"):
                 distinct.add(op)
             if "MODEL-SPLIT" in mo:
                 ctx.proof_failures.append("driver: scan and first-match specification disagree on " + op[:300])
@@ -145,6 +151,24 @@ def run(ctx):
     ok = ok and tie("component/daedns", ["component/daedns/c07_test.go"], "c07d", "TestVerifC07Daedns", "c07d")
     if not ok:
         return 2
+    # generator floors: an input class the check relies on must actually have been generated (else exit 2)
+    floors = {
+        "c07m": {"op.rq": 3000, "op.rs": 3000, "name.special-byte": 300, "func.negated": 500, "pattern.invalid-char": 50},
+        "c07c": {"op.ask": 2000, "name.special-byte": 50, "name.ip-literal-like": 15, "ask.class-other-than-IN": 100,
+                 "ask.background-refresh": 20, "op.pair": 20, "ask.nil-writer-udp-path": 100,
+                 "ask.tcp-fallback-used": 50, "answer.additional-section-filled": 500, "answer.ttl-0": 100,
+                 "answer.a-record-without-address": 100, "upstream.does-not-resolve": 5, "cfg.many-upstreams": 1,
+                 "ask.repeats-earlier-question": 300, "upstream.shares-address.differs-in-hostname": 30,
+                 "ask.upstream-queries.3": 100, "ask.reply.answers": 300},
+        "c07d": {"op.dq": 500, "dq.decision.upstream": 200, "dq.decision.passthrough": 200},
+    }
+    if not any(os.environ.get(v) for v in ("C07_NCFG", "C07_NCFG_CTL")):
+        short = [f"{st}:{k}={dist[st].get(k, 0)}<{v}" for st, fl in floors.items() for k, v in fl.items()
+                 if dist[st].get(k, 0) < v]
+        if short:
+            ctx.say("GENERATOR-FLOOR-NOT-REACHED " + " ".join(short))
+            return 2
+    ctx.cov["generator_floors"] = floors
     ctx.samples = samples
     ctx.cov["input_distribution"] = dist
     ctx.cov["diagnostic_only_differences"] = diag
